@@ -321,10 +321,146 @@ pub fn c13_eval<P: Payload>(ops: &[Op], prof: &Profile, cfg: &StepCfg, record: b
     total
 }
 
+// ------------------------------------------------------------------------------------------------
+// C16: serde round trip.  `Op::Roundtrip` serialises the arena, deserialises it, compares, and
+// lets the copy run the rest of the history in lock-step with the original.
+
+pub fn c16_eval<P: Payload>(ops: &[Op], prof: &Profile, cfg: &StepCfg, record: bool) -> CaseRun {
+    use std::panic::{catch_unwind, AssertUnwindSafe};
+    let mut run = CaseRun::default();
+    let mut main: World<P> = World::new();
+    let mut shadows: Vec<World<P>> = Vec::new();
+    let mut dig: u64 = 0xc16;
+    let mut pending_nt: Option<String> = None;
+    let c16 = |sig: &str, msg: String| Failure::new(&["C16"], format!("c16/{sig}"), msg);
+    for (i, op) in ops.iter().enumerate() {
+        match op {
+            Op::Roundtrip => {
+                let rt = catch_unwind(AssertUnwindSafe(|| P::roundtrip(&main.arena)));
+                let rt = match rt {
+                    Ok(None) => continue,
+                    Ok(Some(r)) => r,
+                    Err(e) => Err(format!("panic: {}", crate::world::panic_msg(e))),
+                };
+                run.evals += 1;
+                run.concrete.push(op.clone());
+                let mut fails = Vec::new();
+                match rt {
+                    Err(e) => fails.push(c16("roundtrip-error", format!("round trip through serde_json failed: {e}"))),
+                    Ok((copy, bytes)) => {
+                        if record {
+                            run.trace.push(format!("roundtrip [{bytes} bytes of JSON] -> equal: {}", copy == main.arena));
+                        }
+                        if copy != main.arena {
+                            fails.push(c16("not-equal", "deserialize(serialize(arena)) != arena".into()));
+                        } else if let Some(l) = main.ids.as_ref() {
+                            'outer: for (slot, hist) in l.per_slot.iter().enumerate() {
+                                for id in hist {
+                                    let a = catch_unwind(AssertUnwindSafe(|| id.is_removed(&main.arena))).ok();
+                                    let b = catch_unwind(AssertUnwindSafe(|| id.is_removed(&copy))).ok();
+                                    if a != b {
+                                        fails.push(c16("is-removed-differs", format!("id {} of slot {slot}: is_removed is {:?} in the original and {:?} in the copy", crate::world::idg(*id), a, b)));
+                                        break 'outer;
+                                    }
+                                }
+                            }
+                        }
+                        if fails.is_empty() {
+                            let free = main.m.free_set().len();
+                            let retired = main.m.n.iter().filter(|m| m.free == crate::model::FreeState::Retired).count();
+                            let rec = main.m.n.iter().filter(|m| m.live && m.recycles > 0).count();
+                            if free > 0 {
+                                pending_nt = Some(format!("c16|{}|f{}|r{}|x{}", main.m.shape(), free.min(4), rec.min(3), retired.min(2)));
+                            }
+                            let mut sh = main.clone();
+                            sh.arena = copy;
+                            if shadows.len() >= 2 {
+                                shadows.remove(0);
+                            }
+                            shadows.push(sh);
+                        }
+                    }
+                }
+                if !fails.is_empty() {
+                    run.fail = Some((i, fails, None));
+                    break;
+                }
+            }
+            Op::Probe { seed } => {
+                let d = deep_at(&mut main, *seed, &prof.deep, cfg);
+                run.evals += d.evals;
+                run.nt.extend(d.nt.iter().copied());
+                run.concrete.push(op.clone());
+                if !d.failures.is_empty() {
+                    run.fail = Some((i, d.failures, d.failing_op));
+                    break;
+                }
+            }
+            _ => {
+                let so = main.step(op, cfg);
+                run.classes.push(so.class.clone());
+                if so.skipped {
+                    run.skipped += 1;
+                    continue;
+                }
+                run.steps += 1;
+                run.evals += 1;
+                dig = splitmix(dig ^ fnv(&so.desc) ^ fnv(&so.outcome).rotate_left(17));
+                run.nt.extend(so.nt.iter().copied());
+                if record {
+                    run.trace.push(format!("{} -> {}", so.desc, so.outcome));
+                }
+                let conc = so.concrete.clone();
+                if let Some(c) = &conc {
+                    run.concrete.push(c.clone());
+                }
+                if !so.failures.is_empty() {
+                    run.fail = Some((i, so.failures, None));
+                    break;
+                }
+                if so.outcome.starts_with("id=") {
+                    if let Some(k) = pending_nt.take() {
+                        run.nt.push(("C16", fnv(&k)));
+                    }
+                }
+                // the copies run the same call
+                let mut fails = Vec::new();
+                for (k, sh) in shadows.iter_mut().enumerate() {
+                    let c = conc.clone().unwrap_or_else(|| op.clone());
+                    let s2 = sh.step(&c, cfg);
+                    run.evals += 1;
+                    if s2.outcome != so.outcome || sh.arena != main.arena {
+                        fails.push(c16(
+                            "continuation-diverges",
+                            format!("{}: original -> {}, round-tripped copy #{k} -> {}; arenas equal afterwards: {}", so.desc, so.outcome, s2.outcome, sh.arena == main.arena),
+                        ));
+                        break;
+                    }
+                    if !s2.failures.is_empty() {
+                        let mut f = s2.failures[0].clone();
+                        f.props.push("C16");
+                        f.msg = format!("on the round-tripped copy: {}", f.msg);
+                        fails.push(f);
+                        break;
+                    }
+                }
+                if !fails.is_empty() {
+                    run.fail = Some((i, fails, None));
+                    break;
+                }
+            }
+        }
+    }
+    run.digest = splitmix(dig ^ table_digest(&main));
+    run
+}
+
 /// Evaluate one generated case under the property's profile.
 pub fn eval_case<P: Payload>(ops: &[Op], prof: &Profile, cfg: &StepCfg, record: bool) -> CaseRun {
     if prof.name == "C13" {
         c13_eval::<P>(ops, prof, cfg, record)
+    } else if prof.name == "C16" {
+        c16_eval::<P>(ops, prof, cfg, record)
     } else {
         run_history::<P>(ops, prof, cfg, record)
     }
@@ -725,7 +861,7 @@ pub fn random_worker<P: Payload>(prop: &str, prof: &Profile, cfg: &StepCfg, seed
             let sig = target_sig.borrow().clone().unwrap_or_default();
             // concretise + ddmin
             let run = eval_case::<P>(&ops, prof, cfg, false);
-            let mut conc = if prof.name == "C13" { ops.clone() } else { concretise_failure(&run) };
+            let mut conc = if prof.name == "C13" || prof.name == "C16" { if run.concrete.is_empty() { ops.clone() } else { run.concrete.clone() } } else { concretise_failure(&run) };
             if fails_for::<P>(&conc, prof, cfg, prop, Some(&sig)).is_none() {
                 conc = ops.clone(); // keep the generator-level case if concretisation changed behaviour
             }
